@@ -185,7 +185,24 @@ def run_case(case):
     rp = {"case": case, "source": src}
     sigP = treeutil.sig(o0.tree)
     # enabled
-    o1 = real.try_parse(src, std=std, omp=True, free=free, ignore_comments=True)
+    via_file = case["seed"] % 4 == 2
+    if via_file:
+        # the same source read through a FortranFileReader (the option must reach it as well)
+        import tempfile
+        import os
+        import shutil
+        tmpd = tempfile.mkdtemp(prefix="fv_c15_")
+        try:
+            path = os.path.join(tmpd, "src.f90" if free else "src.f")
+            with open(path, "w") as f_:
+                f_.write(src)
+            o1 = real.try_parse(None, std=std, omp=True, free=free, ignore_comments=True, path=path)
+        finally:
+            shutil.rmtree(tmpd, ignore_errors=True)
+        res["counts"]["reader:file"] = 1
+        form = form + "/file"
+    else:
+        o1 = real.try_parse(src, std=std, omp=True, free=free, ignore_comments=True)
     if o1.kind != "tree":
         res["findings"].append({"signature": "enabled-reject[%s]:%s" % (form, util.outcome_signature(o1)),
                                 "what": "conditional lines enabled: rejected: %s" % str(o1.exc)[:200], "replay": rp})
